@@ -172,8 +172,14 @@ func (s *BlockchainRpcTxWatcher) StartBlockWatcher() error {
 
 // HandleCsvTx looks for transactions that have enough confirmations to be spend using the csv path
 func (s *BlockchainRpcTxWatcher) HandleCsvTx(blockheight uint64) error {
+	type maturedTx struct {
+		swapId string
+		info   SwapTxInfo
+	}
+	var matured []maturedTx
 	var toRemove []string
 	s.Lock()
+	callback := s.csvPassedCallback
 	for k, v := range s.csvtxWatchList {
 		res, err := s.blockchain.GetTxOut(v.TxId, v.TxVout)
 		if err != nil {
@@ -186,18 +192,24 @@ func (s *BlockchainRpcTxWatcher) HandleCsvTx(blockheight uint64) error {
 		if v.Csv > res.Confirmations {
 			continue
 		}
-		if s.csvPassedCallback == nil {
+		if callback == nil {
 			continue
 		}
-		err = s.csvPassedCallback(k)
-		if err != nil {
-			log.Infof("csv passed callback err: %v. swap id: %s, tx id: %s, starting block height: %d",
-				err, k, v.TxId, v.StartingBlockHeight)
-			continue
-		}
-		toRemove = append(toRemove, k)
+		matured = append(matured, maturedTx{swapId: k, info: *v})
 	}
 	s.Unlock()
+	// The callback sends an event to the swap's state machine. It must run
+	// without the watcher lock: the state machine may be executing an action
+	// that registers a transaction with this watcher.
+	for _, m := range matured {
+		err := callback(m.swapId)
+		if err != nil {
+			log.Infof("csv passed callback err: %v. swap id: %s, tx id: %s, starting block height: %d",
+				err, m.swapId, m.info.TxId, m.info.StartingBlockHeight)
+			continue
+		}
+		toRemove = append(toRemove, m.swapId)
+	}
 	s.TxClaimed(toRemove)
 	return nil
 }
